@@ -10,6 +10,7 @@ CONSTANTS
   MaxOps = 4
   MaxHeads = 2
   KeepHist = TRUE
+  InactiveRefusedAtOnce = TRUE
 VIEW view
 INVARIANTS IndexesAgree SizeLimit FeeIsInputsMinusOutputs PoolTxsOnceValid
 ACTION_CONSTRAINT EmitHist
